@@ -241,17 +241,21 @@ fn main() {
                     let input: &'static str = Box::leak(input.into_boxed_str());
                     let m = run::matrix(input);
                     // optional history: an input parsed first with the SAME parser object (result dropped)
-                    let prev: Option<&'static str> =
-                        f.get(5).map(|h| &*Box::leak(unhex(h).into_boxed_str()));
+                    let prev: Option<&'static str> = f
+                        .get(5)
+                        .filter(|h| **h != "-")
+                        .map(|h| &*Box::leak(unhex(h).into_boxed_str()));
+                    // optional: also parse the input through `parse_file` and compare (field 7 = "F")
+                    let via_file = f.get(6).map_or(false, |x| *x == "F");
                     run::PREV_DONE.store(prev.is_none(), std::sync::atomic::Ordering::SeqCst);
                     let r = with_watchdog(
                         move || {
                             if glr {
-                                run::run_glr(input, partial, max_trees, prev)
+                                run::run_glr(input, partial, max_trees, prev, via_file)
                             } else if let Some((m, sd)) = custom {
                                 run::run_lr_custom(input, partial, m, sd, prev)
                             } else {
-                                run::run_lr(input, partial, prev)
+                                run::run_lr(input, partial, prev, via_file)
                             }
                         },
                         parse_timeout_ms(),
